@@ -379,6 +379,26 @@ def r5(ctx, rep):
                     if not awaited:
                         return False, "wait_for(...) is not awaited"
                     return True, ""
+            # async with asyncio.timeout(<constant <= 5>): await <node>
+            from .proto import timeout_scope_of
+            for w in ast.walk(fn.node):
+                sc = timeout_scope_of(w)
+                if sc is None:
+                    continue
+                aw = [a for b in w.body for a in ast.walk(b) if isinstance(a, ast.Await) and a.value is node]
+                if not aw:
+                    continue
+                if (call_chain(sc) or ("",))[-1] != "timeout" or not sc.args:
+                    return False, "the deadline of the enclosing timeout scope is not a constant delay"
+                try:
+                    v = prog.consteval(sc.args[0], fn.module)
+                except NotConst:
+                    v = None
+                if not isinstance(v, (int, float)) or isinstance(v, bool):
+                    return False, "asyncio.timeout delay is not a constant"
+                if not (0 < v <= 5):
+                    return False, "asyncio.timeout delay is %s s, more than the 5 s bound" % v
+                return True, ""
             return False, "the call is not wrapped in asyncio.wait_for"
 
         # either the create_connection call itself, or every call of the function containing it, is bounded
